@@ -3,7 +3,7 @@ CONSTANTS
   Geoms <- GeomsQuick
   Amps <- Amps4
   AmpsL <- Amps2
-  Pin = 2
+  Pin = 3
   Mutant = "none"
   ExemptKnown = TRUE
   Emit = FALSE
